@@ -569,6 +569,11 @@ impl Chunked {
         Chunked { inner: std::io::Cursor::new(x), chunk, fail_at, kind: crate::source::kind_of(kind) }
     }
 }
+impl std::io::Seek for Chunked {
+    fn seek(&mut self, to: std::io::SeekFrom) -> std::io::Result<u64> {
+        self.inner.seek(to)
+    }
+}
 impl std::io::Read for Chunked {
     fn read(&mut self, buf: &mut [u8]) -> std::io::Result<usize> {
         let mut n = if self.chunk == 0 { buf.len() } else { buf.len().min(self.chunk) };
@@ -613,12 +618,36 @@ pub struct ApiCase {
 /// permits no growth, up to `prehist` records were read from it one by one - stopping at a BufferLimit error -, and the
 /// default policy was installed before the hand-over. Returns the number of records consumed (-1: the history ended in
 /// another error or at the end of the input; such runs are not judged) and whether BufferLimit was met.
+/// `prehist` >= 1000 is the *seek history*: prehist = 1000 * s + n. The reader (default policy) reads up to n records one by
+/// one (it may reach the end of the input), then seeks back to the position it reported for the j-th of them
+/// (j = 1 + (s - 1) mod number read) and is handed over standing before that record: the number returned is j - 1.
 macro_rules! mk_reader {
-    ($fname:ident, $m:ident) => {
+    ($fname:ident, $m:ident, $pos:expr) => {
         fn $fname(x: Vec<u8>, chunk: usize, iofail: usize, iokind: &str, cap: usize, prehist: usize) -> (seq_io::$m::Reader<Chunked>, i64, bool) {
             let src = Chunked::failing(x, chunk, iofail, iokind);
             if prehist == 0 {
                 return (seq_io::$m::Reader::with_capacity(src, cap), 0, false);
+            }
+            if prehist >= 1000 {
+                let (s, n) = (prehist / 1000, prehist % 1000);
+                let mut r0 = seq_io::$m::Reader::with_capacity(src, cap);
+                let mut positions = vec![];
+                while positions.len() < n {
+                    match r0.next() {
+                        Some(Ok(_)) => {}
+                        None => break,
+                        _ => return (r0, -1, false),
+                    }
+                    positions.push($pos(&r0));
+                }
+                if positions.is_empty() {
+                    return (r0, -1, false);
+                }
+                let j = 1 + (s - 1) % positions.len();
+                if r0.seek(&positions[j - 1]).is_err() {
+                    return (r0, -1, false);
+                }
+                return (r0, j as i64 - 1, false);
             }
             let mut r0 = seq_io::$m::Reader::with_capacity(src, cap).set_policy(seq_io::policy::DoubleUntilLimited::new(8, cap));
             let mut pre = 0i64;
@@ -640,8 +669,8 @@ macro_rules! mk_reader {
         }
     };
 }
-mk_reader!(mk_reader_fasta, fasta);
-mk_reader!(mk_reader_fastq, fastq);
+mk_reader!(mk_reader_fasta, fasta, |r: &seq_io::fasta::Reader<Chunked>| r.position().unwrap().clone());
+mk_reader!(mk_reader_fastq, fastq, |r: &seq_io::fastq::Reader<Chunked>| r.position().clone());
 
 macro_rules! api_runner {
     ($fname:ident, $m:ident, $pfn:ident, $pinit:ident, $recjson:path, $variant:ident, $mk:ident) => {
@@ -1075,6 +1104,11 @@ pub fn cmd_api(suite: &Value, out: &str, seed: u64) {
             c.recinit_fail_at = 0;
             c.setinit_fail_at = 0;
             c.prehist = 1 + rng.below(3);
+            if i % 2 == 1 {
+                // seek history: read up to n records (n up to beyond the end of the input), seek back to one of them
+                c.prehist = 1000 * (1 + rng.below(9)) + 1 + rng.below(11);
+                c.cap = *rng.pick(&[3usize, 5, 8, 16, 32, 64, 256]);
+            }
         }
         if suite["focus"].as_str() == Some("iofail") {
             c.stop_after = 0;
